@@ -253,6 +253,41 @@ Proof.
   - unfold kv_delete_secret in H. destruct (find n s) as [x|]; injection H as _ <- _; discriminate.
 Qed.
 
+(* a step that did not save left the state exactly as it was *)
+Theorem unsaved_noop ok s o s' r sv : Inv s -> kv_step ok s o = (s', r, sv) -> sv <> Saved -> s' = s.
+Proof.
+  intros I H NS. destruct ok; [|eapply rollback_exact; eassumption].
+  pose proof (refines_spec_ok o I) as R. rewrite H in R. destruct I as [Ss Hs].
+  destruct o as [n b|n v|n v|n|n|n v|n|]; cbn [KV.spec_step needs_save] in R;
+    try (destruct R as (-> & _); reflexivity).
+  - destruct (find n s) as [x|]; [destruct (find (latest x) (vers x)) as [cur|]; [destruct (veqb cur b)|]|];
+      cbn [negb] in R; destruct R as (-> & _ & ->); try reflexivity; contradiction NS; reflexivity.
+  - destruct (v =? 0); [destruct R as (-> & _); reflexivity|]. cbn [negb andb] in R.
+    destruct (find n s) as [x|] eqn:F; [|destruct R as (-> & _); reflexivity].
+    destruct (find v (vers x)); [|destruct R as (-> & _); reflexivity].
+    destruct (active x =? v) eqn:E; cbn [negb] in R; destruct R as (-> & _ & ->); [|contradiction NS; reflexivity].
+    apply N.eqb_eq in E. subst v. rewrite secret_eta. apply upd_same; assumption.
+  - destruct (v =? 0); [destruct R as (-> & _); reflexivity|]. cbn [negb andb] in R.
+    destruct (find n s) as [x|] eqn:F; [|destruct R as (-> & _); reflexivity].
+    destruct (v =? active x); cbn [negb andb] in R; [destruct R as (-> & _); reflexivity|].
+    destruct (find v (vers x)); destruct R as (-> & _ & ->); [contradiction NS; reflexivity|reflexivity].
+  - destruct (find n s) as [x|] eqn:F; destruct R as (-> & _ & ->); [contradiction NS; reflexivity|].
+    apply del_absent; assumption.
+Qed.
+
+(* a save is attempted successfully only when the file system allows it *)
+Theorem saved_needs_ok ok s o s' r : kv_step ok s o = (s', r, Saved) -> ok = true.
+Proof.
+  destruct ok; [reflexivity|]. destruct o as [n b|n v|n v|n|n|n v|n|]; cbn [KV.kv_step]; try discriminate.
+  - unfold KV.kv_put. destruct (find n s) as [x|];
+      [destruct (match find (latest x) (vers x) with Some cur => veqb cur b | None => false end)|]; discriminate.
+  - unfold kv_set_active. destruct (v =? 0); [discriminate|]. destruct (find n s) as [x|]; [|discriminate].
+    destruct (find v (vers x)); [|discriminate]. destruct (active x =? v); discriminate.
+  - unfold kv_delete_version. destruct (v =? 0); [discriminate|]. destruct (find n s) as [x|]; [|discriminate].
+    destruct (v =? active x); [discriminate|]. destruct (find v (vers x)); discriminate.
+  - unfold kv_delete_secret. destruct (find n s); discriminate.
+Qed.
+
 (* ---- frame: operations on one name never affect another ---- *)
 Theorem frame ok s o s' r sv n :
   Inv s -> kv_step ok s o = (s', r, sv) -> ktarget o <> Some n -> find n s' = find n s.
@@ -328,6 +363,9 @@ Theorem active_exists s n x : Inv s -> find n s = Some x -> exists b, kv_get s n
 Proof.
   intros [_ Hs] F. destruct (Hs _ _ F) as (_ & _ & (b & Ha)). exists b. unfold kv_get. rewrite F, Ha. reflexivity.
 Qed.
+
+Lemma kv_get_absent (s : kvs) n : find n s = None -> kv_get s n = KNotFound.
+Proof. intro F. unfold kv_get. rewrite F. reflexivity. Qed.
 
 Theorem active_undeletable ok s n x : find n s = Some x ->
   exists r, kv_delete_version ok s n (active x) = (s, r, NoSave) /\ is_err r = true.
